@@ -73,6 +73,7 @@ type State struct {
 	nonNaN      map[*Term]bool
 	noNaNInputs bool
 	keyMemo     map[*Term]*Term
+	replacements map[string]*Closure
 }
 
 var finfoMu sync.Mutex
@@ -226,6 +227,11 @@ func (s *State) callFunction(fn *ssa.Function, args []Value, bindings []Value) V
 	if fn.Origin() != nil {
 		if h, ok := intrinsics[fn.Origin().String()]; ok {
 			return h(s, fn, args)
+		}
+	}
+	if s.replacements != nil {
+		if cl, ok := s.replacements[name]; ok {
+			return s.callFunction(cl.fn, args, cl.bindings)
 		}
 	}
 	if fn.Synthetic == "package initializer" {
